@@ -1323,6 +1323,12 @@ def writeBackArgs (callee : List (String × Value)) :
     | _ => none
   | _ :: ps, _ :: rest, env => writeBackArgs callee ps rest env
   | _, _, _ => none
+
+/-- does the function declare a parameter of a type `&mut T` (the type text starts with `&mut`)?  Only such
+    functions take the by-reference path of `callDecl`; for every other function `callDecl` is what it was. -/
+def hasMutRefParam : List (Pat × String) → Bool
+  | [] => false
+  | (_, ty) :: rest => if ty.startsWith "&mut" = true then true else hasMutRefParam rest
 -- [poller] end
 
 /-- bind the arguments to the parameter patterns (ascribing the declared types) -/
@@ -1797,16 +1803,33 @@ def evalArms : Nat → Ctx → Frame → List Arm → Value → St → Res
 def callDecl : Nat → Ctx → FnDecl → Value → List Value → St → Res
   | 0, _, _, _, _, _ => .stuck "out of fuel"
   | n + 1, ctx, d, self, args, st =>
-    -- [poller] an argument `&mut x` stands for the value of the caller's `x` (`derefArgs`) ...
+    -- [poller] a function that declares a `&mut T` parameter is called by `callDeclRef` (below); for every other
+    -- function the rule is the one that was there before, unchanged
+    if hasMutRefParam d.params = true then callDeclRef n ctx d self args st else
+    orStuck "call: arguments do not fit the parameters" (bindParams n d.selfTy d.params args) fun bs =>
+      let env := if d.self = .none then bs else bs ++ [("self", self)]
+      let finish := fun (v : Value) (st' : St) =>
+        orStuck "call: result does not fit the declared type" (ascribe d.ret v) fun v' =>
+          .val (.tuple [v', (envGet st'.env "self").getD .unit]) { st' with env := st.env }
+      (evalBlock n ctx ⟨d.module, d.selfTy, d.ret⟩ d.body { st with env := env }).on finish finish
+
+-- [poller] begin
+/-- `callDecl` for a function with a `&mut T` parameter (one more unit of fuel): an argument `&mut x` stands for
+    the value of the caller's `x` (`derefArgs`), and the callee's final value of the parameter is stored back
+    into `x` on return (`writeBackArgs`); otherwise as `callDecl`.  Its equations are NOT in the simp set of
+    `Proofs/RsEval.lean`; the group that needs them registers them (`Proofs/RsNow.lean`). -/
+def callDeclRef : Nat → Ctx → FnDecl → Value → List Value → St → Res
+  | 0, _, _, _, _, _ => .stuck "out of fuel"
+  | n + 1, ctx, d, self, args, st =>
     orStuck "call: &mut argument of something that is not a local variable" (derefArgs st.env args) fun args' =>
     orStuck "call: arguments do not fit the parameters" (bindParams n d.selfTy d.params args') fun bs =>
       let env := if d.self = .none then bs else bs ++ [("self", self)]
       let finish := fun (v : Value) (st' : St) =>
         orStuck "call: result does not fit the declared type" (ascribe d.ret v) fun v' =>
-          -- [poller] ... and the callee's final value of the parameter is stored back (`writeBackArgs`)
           orStuck "call: &mut argument bound by a pattern" (writeBackArgs st'.env d.params args st.env) fun env' =>
           .val (.tuple [v', (envGet st'.env "self").getD .unit]) { st' with env := env' }
       (evalBlock n ctx ⟨d.module, d.selfTy, d.ret⟩ d.body { st with env := env }).on finish finish
+-- [poller] end
 
 end
 
